@@ -216,6 +216,7 @@ type nodeCfg struct {
 	KeepWAL     int    `json:"keep_wal"`
 	KeepBackup  int    `json:"keep_backup"`
 	WALSegment  int64  `json:"wal_segment"`
+	OptFsync    bool   `json:"optimized_fsync"` // namespace option optimized_fsync (the default of namespaces created through the placement driver)
 }
 
 func defaultCfg(engine string) nodeCfg {
@@ -268,7 +269,7 @@ func newNodeDir(cfg nodeCfg, ports *portBlock) (*nodeDir, error) {
 		},
 		"namespace": map[string]interface{}{
 			"name": "default-0", "base_name": "default", "eng_type": "rockredis", "partition_num": 1,
-			"snap_count": cfg.SnapCount, "snap_catchup": cfg.SnapCatchup, "replicator": 1, "optimized_fsync": false,
+			"snap_count": cfg.SnapCount, "snap_catchup": cfg.SnapCatchup, "replicator": 1, "optimized_fsync": cfg.OptFsync,
 			"raft_group_conf": map[string]interface{}{"group_id": 1000,
 				"seed_nodes": []interface{}{map[string]interface{}{"node_id": 1, "replica_id": 1, "raft_addr": raft}}},
 			"expiration_policy": "wait_compact", "data_version": "value_header_v1",
